@@ -25,10 +25,9 @@ Suppressions:
 
 import sys
 from pathlib import Path
-from typing import TYPE_CHECKING, Any, NoReturn
+from typing import TYPE_CHECKING, NoReturn
 
 import click
-import yaml
 from loguru import logger
 
 from src.cli.linters.shared import (
@@ -43,6 +42,7 @@ from src.cli.utils import (
     format_option,
     get_project_root_from_context,
     handle_linting_error,
+    load_config_file,
     parallel_option,
     setup_base_orchestrator,
     validate_paths_exist,
@@ -69,21 +69,8 @@ def _setup_dry_orchestrator(
 
 
 def _load_dry_config_file(orchestrator: "Orchestrator", config_file: str, verbose: bool) -> None:
-    """Load DRY configuration from file."""
-    config_path = Path(config_file)
-    if not config_path.exists():
-        click.echo(f"Error: Config file not found: {config_file}", err=True)
-        sys.exit(2)
-
-    with config_path.open("r", encoding="utf-8") as f:
-        config: dict[str, Any] = yaml.safe_load(f)
-
-    try:
-        dry_config = config["dry"]
-    except KeyError:
-        return  # No DRY config in file
-    orchestrator.config.update({"dry": dry_config})
-    logger.debug(f"Loaded DRY config from {config_file}")
+    """Load configuration from file (the dry section and the global settings such as ignore)."""
+    load_config_file(orchestrator, config_file, verbose)
 
 
 def _apply_dry_config_override(
